@@ -55,6 +55,9 @@ type vWorld struct {
 	withPool bool
 }
 
+// vLocalSuffix distinguishes the node-local inputs of the replicas of a two-replica harness.
+var vLocalSuffix string
+
 // vBegin switches to the context in which the operation under test runs.
 func (w *vWorld) vBegin() {
 	w.ctx = w.appState.NewContext(w.mode)
@@ -68,10 +71,17 @@ func vMust(err error, what string) {
 // vNewWorld builds the state. withPool adds escrow pools and delegations.
 func vNewWorld(mode abciAPI.ContextMode, withPool bool) *vWorld {
 	w := &vWorld{mode: mode, withPool: withPool}
-	w.appState = abciAPI.NewMockApplicationState(&abciAPI.MockApplicationStateConfig{
+	// node-local configuration (not part of the consensus state): the minimum gas price this node accepts
+	// and, with cfg ownsigner=1, whether the transaction signer is this node's own key. vLocalSuffix names
+	// the replica so that two worlds in one harness share everything but their local configuration.
+	local := &abciAPI.MockApplicationStateConfig{
 		CurrentEpoch: vEpoch,
-		MinGasPrice:  vQ("localMinGasPrice"),
-	})
+		MinGasPrice:  vQ("localMinGasPrice" + vLocalSuffix),
+	}
+	if symx.Cfg("ownsigner", 0) == 1 && symx.Bool("ownTxSigner"+vLocalSuffix) {
+		local.OwnTxSigner = vPK(1)
+	}
+	w.appState = abciAPI.NewMockApplicationState(local)
 	w.ctx = w.appState.NewContext(abciAPI.ContextInitChain)
 	w.state = stakingState.NewMutableState(w.ctx.State())
 	w.app = &Application{state: w.appState}
